@@ -55,6 +55,17 @@ pub fn tai_lattice(thorough: bool, deep: bool) -> Vec<i128> {
             v.push(c * NPC - 1);
         }
     }
+    // pairs of instants exactly TWICE the distance of two scales' zero points apart (the difference of their counts in those
+    // two scales is then minus the offset: the x == -x trap of Duration equality)
+    for (i, zi) in zeros.iter().enumerate() {
+        for zj in zeros.iter().skip(i + 1) {
+            for base in [0i128, *zi, 1_000_000_000 * NS + 5] {
+                v.push(base);
+                v.push(base + 2 * (zi - zj));
+                v.push(base - 2 * (zi - zj));
+            }
+        }
+    }
     if deep {
         // thorough tier: both sides of EVERY table entry at finer offsets, every whole and half second within 40 s of
         // the 2017 leap second, finer offsets round each scale's zero, more century boundaries
@@ -322,11 +333,22 @@ pub fn run(rep: &mut Report) {
         j_convert(&sub[(j / m) as usize], &sub[(j % m) as usize], x, &leap, out)
     });
     sweep(rep, "c12.sort", 3, |i, out| j_sort(i, deep, &pts, out));
-    // order independence (depth-2 operation sequences on one thread): comparisons of 64 pairs in every order
+    // order independence: comparisons of the same and of neighbouring instants held in different scales - after the last
+    // table entry, between entries, in the pre-1972 era, mirrored about 1900 - in every order
     {
-        let pick: Vec<Pt> = pts.iter().copied().step_by((pts.len() / 16).max(1)).take(16).collect();
-        let np = pick.len() as u64;
-        crate::engine::order_pairs(rep, "c12.order", (np * np).min(64), |i, out| j_pair(&pick[((i * 5) % np) as usize], &pick[((i * 11 + 3) % np) as usize], out));
+        let inst: [i128; 6] = [3_706_000_000 * NS, 3_692_217_636 * NS + NS / 2, 2_051_222_400 * NS, 2_840_140_800 * NS, 86_400 * NS * 7305 + 5, -(86_400 * NS * 7305 + 5)];
+        let sp = [(TimeScale::UTC, TimeScale::TAI), (TimeScale::UTC, TimeScale::GPST), (TimeScale::TAI, TimeScale::TT), (TimeScale::GPST, TimeScale::GST), (TimeScale::BDT, TimeScale::UTC), (TimeScale::QZSST, TimeScale::TAI)];
+        let mut menu: Vec<(Pt, Pt)> = vec![];
+        for t in inst {
+            for (a, b) in sp {
+                for d in [0i128, 1] {
+                    if let (Some(ca), Some(cb)) = (scales::from_tai(t, a, &leap), scales::from_tai(t + d, b, &leap)) {
+                        menu.push((Pt { ts: a, c: ca, tai: t, exact: true }, Pt { ts: b, c: cb, tai: t + d, exact: true }));
+                    }
+                }
+            }
+        }
+        crate::engine::order_pairs(rep, "c12.order", menu.len() as u64, |i, out| j_pair(&menu[i as usize].0, &menu[i as usize].1, out));
     }
     // far range, same scale: near both ends of the representable range (where conversions to another scale saturate)
     // two epochs of one scale are still ordered by their counts
